@@ -64,6 +64,15 @@ Theorem C15_never_panics ops r l o :
   wf ops -> nth_error (s_logs (run ops)) r = Some l -> iterator l o <> Panic.
 Proof. intros W L. destruct (sinv_run ops W) as [_ IL]. exact (iterator_no_panic l _ (IL r l L) o). Qed.
 
+(* ... and on every replica of every history with bounded merges and re-opened logs ([owf], Proofs/POpen.v) *)
+From IpfsLog Require Import Proofs.PInv Proofs.POpen.
+Theorem C15_never_panics_in_every_history ops r l o :
+  owf ops -> nth_error (s_logs (run ops)) r = Some l -> iterator l o <> Panic.
+Proof.
+  intros W L. destruct (osinv_run ops W) as [_ IL]. pose proof (IL r l L) as I.
+  exact (iterator_no_panic_raw l (pi_nodup _ _ I) (pinv_well_keyed _ _ I) o).
+Qed.
+
 (* on success the output channel is closed - also for amount 0 *)
 Theorem C15_success_closes_channel l o es c : iterator l o = Ok (es, c) -> c = true.
 Proof. exact (iterator_closes l o es c). Qed.
@@ -98,3 +107,4 @@ Print Assumptions C15_success_closes_channel.
 Print Assumptions C15_amount_zero.
 Print Assumptions C15_unknown_upper_bound_is_error.
 Print Assumptions C15_nonvacuous.
+Print Assumptions C15_never_panics_in_every_history.
